@@ -208,6 +208,21 @@ def sh_merge(ctx, out, bodies, rule="SH.merge", floor_entries=5):
                 out.viol(rule, key, ctx.where(b, t["span"]),
                          "a diagnostics map (PathBuf -> Vec<Violation>) is built by `collect()` from (file, diagnostics) pairs: when two producers report the same file, the later pair replaces the earlier one instead of being appended to it")
                 continue
+            # `entry(file).and_modify(|old| old.extend(new)).or_default()`: the incoming diagnostics live only in the
+            # closure, which runs for a file that is already there - for a new file they are dropped and an empty
+            # list is inserted
+            if re.search(r"hash_map::Entry::<'a, K, V>::and_modify$|hash_map::Entry::<'a, K, V(, A)?>::and_modify$", d) and re.search(r"Entry<'?_?\w*,? ?std::path::PathBuf, std::vec::Vec<blockwatch::validators::Violation>", a0) and len(t["args"]) > 1:
+                pl = t["args"][1].get("m") or t["args"][1].get("c")
+                adt = b.locals[pl["l"]].get("adt") if pl else None
+                cb = ctx.facts.body(adt) if adt else None
+                if cb is not None and cb.kind == "Closure":
+                    ups = [l.get("ty") or "" for l in cb.locals[1:2]]
+                    cap = [x for bi2, j2, s2 in b.assigns() if s2["rv"]["k"] == "agg" and s2["rv"].get("agg") == "closure" and s2["rv"].get("path") == cb.id
+                           for x in s2["rv"]["ops"] if (x.get("m") or x.get("c")) and re.match(r"std::vec::Vec<blockwatch::validators::Violation>", b.local_ty((x.get("m") or x.get("c"))["l"]))]
+                    if cap:
+                        out.viol(rule, "%s|%s|and_modify" % (rule, b.id), ctx.where(b, t["span"]),
+                                 "a file's diagnostics are merged with `entry(..).and_modify(|old| old.extend(new))`: the incoming list is owned by the closure, which only runs when the file already has an entry - for a file that has none the diagnostics are dropped (and whatever `or_default` / `or_insert` supplies is stored instead)")
+                continue
             if not (VIOL_MAP.search(a0) or (("Extend" in d) and VIOL_MAP.search(self_ty))):
                 continue
             if re.search(r"HashMap::<K, V, S, A>::entry$", d):
@@ -996,3 +1011,28 @@ def check_detect_cases(ctx, out, names, rule):
         else:
             samples.append("%s: 8 cases" % name)
     out.inst(rule, n, 0, samples, note="%d of %d decided detector cases as expected ({absent, \"\", blank, value} x {modified, not})" % (n, total), exhaustive=True)
+
+
+STRING_BUILDING = r"<impl str>::(trim\w*|strip_\w+|to_\w+case|to_lowercase|to_uppercase|replace\w*|split\w*|get|lines|chars|repeat|escape_\w+)$|Index<.*> for str>::index$|string::String::(push\w*|insert\w*|truncate|remove|replace_range|retain|drain)$|alloc::fmt::format|fmt::Arguments::<'a>::new\w*|regex::escape$|Cow<.*>::(into_owned|to_mut)$|ops::Add<&str>>::add$|<impl \\[T\\]>::(concat|join)$|Concat<str>>::concat$|Join<&str>>::join$"
+
+
+def check_raw_patterns(ctx, out, rule):
+    """A user's regular expression is compiled as written: at every `Regex::new` reachable from the validators the
+    pattern text has not passed through a call that builds or changes a string (`format!`, concatenation, `trim`,
+    `replace`, an escape, a slice). Wrapping or editing the text changes which patterns are malformed (a wrapper's
+    own parentheses re-balance `a)|(b`) and what a well-formed one matches."""
+    n = 0
+    for b in ctx.reachable_bodies():
+        if b.promoted is not None or not (b.id.startswith("blockwatch::validators") or "blockwatch::validators::" in b.id):
+            continue
+        for bi, t in b.calls():
+            if not callee_matches(t, r"^regex::Regex::new$|^regex::RegexBuilder::new$") or not t["args"]:
+                continue
+            la = ctx.prov.resolve_upvars(b, ctx.prov.read_operand(b, t["args"][0]))
+            calls = sorted({l[1].split("::")[-1] for l in la if l[0] == "call" and re.search(STRING_BUILDING, l[1])})
+            if calls:
+                out.viol(rule, "%s|%s" % (rule, b.id), ctx.where(b, t["span"]),
+                         "a regular expression is compiled from text that went through `%s`: the user's pattern is no longer judged (malformed or not) and matched as written" % "`, `".join(calls[:4]))
+            else:
+                n += 1
+    out.inst(rule, n, 4, note="Regex::new sites in the validators: the pattern is the attribute's text, unchanged")
